@@ -17,7 +17,7 @@ def render(shape):
         if ann and not lam:
             s += ': A%d' % i
         if dflt:
-            s += (' = ' if ann and not lam else '=') + str(100 + i)
+            s += (' = ' if ann and not lam else '=') + default_text(shape, i)
         return s
     for ann, d in shape['posonly']:
         parts.append(one('p', ann, d))
@@ -39,6 +39,35 @@ def render(shape):
     return '%sdef f(%s): pass' % ('async ' if shape['form'] == 'async' else '', sig)
 
 
+DEFAULTS = ['None', '0', "'s'", 'x', '()', '(1, 2)', 'a.b', '-1', 'None', '...', 'True', '[None]', 'None', 'x if y else None', 'f(None)', '1.5', "b''", 'not None']
+
+
+def default_text(shape, i):
+    """the default expression of parameter number i: distinct integers (dv 0), the literal None everywhere (dv 1), a mixture
+    with repeated and None values (dv 2), or explicitly listed texts (dvals)"""
+    if shape.get('dvals'):
+        return shape['dvals'][i % len(shape['dvals'])]
+    dv = shape.get('dv', 0)
+    if dv == 1:
+        return 'None'
+    if dv == 2:
+        return DEFAULTS[(i * 5 + 1) % len(DEFAULTS)]
+    return str(100 + i)
+
+
+def fingerprint(x):
+    if isinstance(x, dict):
+        return {k: fingerprint(v) for k, v in x.items() if k != 'range'}
+    if isinstance(x, list):
+        return [fingerprint(v) for v in x]
+    return x
+
+
+def fp(x):
+    import json
+    return json.dumps(fingerprint(x), sort_keys=True)
+
+
 def P(arg):
     """(name, annotation id, default value) of an `arg` dump / arg_with_default dump"""
     if arg is None:
@@ -46,13 +75,13 @@ def P(arg):
     if arg['_'] == 'arg_with_default':
         n, a, _ = P(arg['def'])
         d = arg['default']
-        return (n, a, d['value']['v'] if d else None)
+        return (n, a, fp(d) if d else None)
     ann = arg['annotation']
     return (arg['arg'], ann['id'] if ann else None, None)
 
 
 def E(expr):
-    return expr['value']['v']
+    return fp(expr)
 
 
 class C14(Property):
@@ -88,9 +117,10 @@ class C14(Property):
                                 for kw in (None, False):
                                     for ann in (False, True):
                                         for form in ('def', 'lambda') if not ann else ('def', 'async'):
-                                            yield {'posonly': [[ann, f] for f in flags[:npo]], 'pos': [[ann, f] for f in flags[npo:]],
-                                                   'vararg': None if va is None else ann, 'kwonly': [[ann, d] for d in kwd],
-                                                   'kwarg': None if kw is None else ann, 'form': form}
+                                            for dv in ((0, 1, 2) if (nd or any(kwd)) else (0,)):
+                                                yield {'posonly': [[ann, f] for f in flags[:npo]], 'pos': [[ann, f] for f in flags[npo:]],
+                                                       'vararg': None if va is None else ann, 'kwonly': [[ann, d] for d in kwd],
+                                                       'kwarg': None if kw is None else ann, 'form': form, 'dv': dv}
 
     def gen(self, cs, ctx):
         npo, npos, nkw = cs.choice(6), cs.choice(6), cs.choice(6)
@@ -99,7 +129,8 @@ class C14(Property):
         form = cs.pick(['def', 'def', 'async', 'lambda'])
         return {'posonly': [[cs.bool(), f] for f in flags[:npo]], 'pos': [[cs.bool(), f] for f in flags[npo:]],
                 'vararg': cs.pick([None, False, True]), 'kwonly': [[cs.bool(), cs.bool()] for _ in range(nkw)],
-                'kwarg': cs.pick([None, False, True]), 'form': form}
+                'kwarg': cs.pick([None, False, True]), 'form': form,
+                'dvals': [cs.pick(DEFAULTS) if cs.bool(170) else str(100 + j) for j in range(1 + cs.choice(8))] if cs.bool(170) else None}
 
     def nontrivial(self, case, ctx):
         nd = sum(d for _, d in case['posonly'] + case['pos'] + case['kwonly'])
